@@ -43,6 +43,7 @@ Definition measure (s : stream) : nat :=
 Definition poll_event (s : stream) (a : actor) (e : sev) : bool :=
   match a, e with
   | ASrc, Joined RFilt => true                                       (* log marker of thread_join; no state change *)
+  | ASrc, DGetEmpty _ => true                                        (* the camera had no frame yet: the source asks again *)
   | ASink, RMapEnter RdSink | ASink, RMap RdSink _ => in_main (k_pc s) && negb (told s)     (* polling while not told to stop *)
   | ASink, RUnmap RdSink 0 =>
       match k_pc s with
